@@ -1,5 +1,6 @@
 import QR.Model.Cli
 import QR.Proofs.Segmentation
+import QR.Proofs.Pinned
 /-
 C17 - the `qr` command: decision logic (payload, options, sink independence, rejection).
 The image/ASCII output then decodes to the payload by C01 + C12/C13/C15 (renderers) - composed by the oracle sweep.
@@ -109,5 +110,9 @@ theorem C17_sink_independent (i : CliInput) (path : String) (f d l segs)
     simp only [cli, hl', hf', hd', hcond]
     simp
     rfl
+
+/-- the Python functions this property's model mirrors have, in /repo's current working tree, exactly the normalised
+    ASTs the model was written and validated against (fingerprints regenerated by T1 on every run) -/
+theorem C17_source_fingerprints : QR.Gen.fp_C17 = QR.Pinned.fp_C17 := by decide
 
 end QR.Props
